@@ -28,8 +28,27 @@ fn usage() -> ! {
     std::process::exit(2)
 }
 
+/// logger that formats every record (and throws the text away): the library is built with its default log level
+/// (trace), so the arguments of its log macros are evaluated exactly as for a user who installs a logger
+struct SinkLogger;
+impl log::Log for SinkLogger {
+    fn enabled(&self, _: &log::Metadata) -> bool {
+        true
+    }
+    fn log(&self, r: &log::Record) {
+        let s = format!("{}", r.args());
+        std::hint::black_box(s);
+    }
+    fn flush(&self) {}
+}
+static SINK: SinkLogger = SinkLogger;
+
 fn main() {
     harness::sess::install_panic_hook();
+    if std::env::var("VERIF_NO_LOG_SINK").is_err() {
+        let _ = log::set_logger(&SINK);
+        log::set_max_level(log::LevelFilter::Trace);
+    }
     let args: Vec<String> = std::env::args().collect();
     if args.len() < 3 {
         usage();
